@@ -1,3 +1,581 @@
 package main
 
-func genFacts() {}
+// go2lean, fact mode: fixed AST queries about decision logic that lives inside effectful
+// functions. Each query yields a Lean term; a query that no longer matches yields "unknown"/false.
+
+import (
+	"bytes"
+	"fmt"
+	"go/ast"
+	"go/printer"
+	"go/token"
+	"sort"
+	"strings"
+)
+
+type src struct {
+	fset  *token.FileSet
+	file  *ast.File
+	funcs map[string]*ast.FuncDecl
+	rel   string
+}
+
+func load(rel string) *src {
+	fset := token.NewFileSet()
+	f := parseFile(fset, rel)
+	return &src{fset: fset, file: f, funcs: funcDecls(f), rel: rel}
+}
+
+func (s *src) text(n ast.Node) string {
+	if n == nil {
+		return ""
+	}
+	var b bytes.Buffer
+	printer.Fprint(&b, s.fset, n)
+	return strings.Join(strings.Fields(b.String()), " ")
+}
+
+func (s *src) fn(name string) *ast.FuncDecl {
+	if f, ok := s.funcs[name]; ok {
+		return f
+	}
+	broken = append(broken, fmt.Sprintf("%s: function %s not found", s.rel, name))
+	return &ast.FuncDecl{Body: &ast.BlockStmt{}, Name: ast.NewIdent(name), Type: &ast.FuncType{Params: &ast.FieldList{}}}
+}
+
+// callOrder lists, in source order, the labels of the calls whose rendered callee matches.
+func (s *src) callOrder(n ast.Node, labels map[string]string) []string {
+	type hit struct {
+		pos token.Pos
+		l   string
+	}
+	var hits []hit
+	ast.Inspect(n, func(x ast.Node) bool {
+		if c, ok := x.(*ast.CallExpr); ok {
+			if l, ok := labels[s.text(c.Fun)]; ok {
+				hits = append(hits, hit{c.Pos(), l})
+			}
+		}
+		return true
+	})
+	sort.Slice(hits, func(i, j int) bool { return hits[i].pos < hits[j].pos })
+	var out []string
+	for _, h := range hits {
+		out = append(out, h.l)
+	}
+	return out
+}
+
+// stmtsOf flattens a body into its top-level statements.
+func stmtsOf(b *ast.BlockStmt) []ast.Stmt {
+	if b == nil {
+		return nil
+	}
+	return b.List
+}
+
+// ifWithCond finds the first IfStmt (anywhere below n) whose condition renders as cond.
+func (s *src) ifWithCond(n ast.Node, cond string) *ast.IfStmt {
+	var res *ast.IfStmt
+	ast.Inspect(n, func(x ast.Node) bool {
+		if res != nil {
+			return false
+		}
+		if i, ok := x.(*ast.IfStmt); ok && s.text(i.Cond) == cond {
+			res = i
+			return false
+		}
+		return true
+	})
+	return res
+}
+
+// ifContaining finds the first IfStmt whose condition text contains all the fragments.
+func (s *src) ifContaining(n ast.Node, frags ...string) *ast.IfStmt {
+	var res *ast.IfStmt
+	ast.Inspect(n, func(x ast.Node) bool {
+		if res != nil {
+			return false
+		}
+		if i, ok := x.(*ast.IfStmt); ok {
+			t := s.text(i.Cond)
+			all := true
+			for _, f := range frags {
+				if !strings.Contains(t, f) {
+					all = false
+				}
+			}
+			if all {
+				res = i
+				return false
+			}
+		}
+		return true
+	})
+	return res
+}
+
+func endsIn(b *ast.BlockStmt, kind string) bool {
+	if b == nil || len(b.List) == 0 {
+		return false
+	}
+	switch x := b.List[len(b.List)-1].(type) {
+	case *ast.ReturnStmt:
+		return kind == "return"
+	case *ast.BranchStmt:
+		return kind == strings.ToLower(x.Tok.String())
+	}
+	return false
+}
+
+func (s *src) firstCallPos(n ast.Node, callee string) token.Pos {
+	var p token.Pos
+	ast.Inspect(n, func(x ast.Node) bool {
+		if c, ok := x.(*ast.CallExpr); ok && p == 0 && s.text(c.Fun) == callee {
+			p = c.Pos()
+		}
+		return true
+	})
+	return p
+}
+
+// errCheckedAfter: the statement holding the call is directly followed by `if err != nil { … return }`.
+func (s *src) errCheckedAfter(body *ast.BlockStmt, callee string) bool {
+	ok := false
+	var walk func(list []ast.Stmt)
+	walk = func(list []ast.Stmt) {
+		for i, st := range list {
+			has := false
+			switch st.(type) {
+			case *ast.AssignStmt, *ast.ExprStmt:
+				ast.Inspect(st, func(x ast.Node) bool {
+					if c, k := x.(*ast.CallExpr); k && s.text(c.Fun) == callee {
+						has = true
+					}
+					return true
+				})
+			}
+			if has && i+1 < len(list) {
+				if ifs, k := list[i+1].(*ast.IfStmt); k && s.text(ifs.Cond) == "err != nil" && endsIn(ifs.Body, "return") {
+					ok = true
+				}
+			}
+			ast.Inspect(st, func(x ast.Node) bool {
+				if b, k := x.(*ast.BlockStmt); k && x != st {
+					walk(b.List)
+					return false
+				}
+				return true
+			})
+		}
+	}
+	walk(body.List)
+	return ok
+}
+
+func leanStrList(xs []string) string {
+	q := make([]string, len(xs))
+	for i, x := range xs {
+		q[i] = leanStr(x)
+	}
+	return "[" + strings.Join(q, ", ") + "]"
+}
+
+func leanStr(s string) string {
+	return "\"" + strings.ReplaceAll(strings.ReplaceAll(s, "\\", "\\\\"), "\"", "\\\"") + "\""
+}
+
+func leanBool(b bool) string {
+	if b {
+		return "true"
+	}
+	return "false"
+}
+
+func persistLabel(s string) string {
+	switch s {
+	case "rootPersist":
+		return "current"
+	case "mergedPersist":
+		return "merged"
+	}
+	return "unknown:" + s
+}
+
+func genFacts() {
+	kvs := load("kv/kv.go")
+	vc := load("vtable_common.go")
+	vt := load("sqlite/vtable.go")
+	rf := load("sqlite/s3db_refresh.go")
+	f := map[string]string{}
+
+	// ---- DB.Commit
+	commit := kvs.fn("DB.Commit")
+	f["commitOrder"] = leanStrList(kvs.callOrder(commit, map[string]string{"s.crdt.MakeRoot": "flushNodes", "s.root.Store": "putRoot", "s.moveMergedRoots": "retireParents"}))
+	f["commitChecksErrors"] = leanBool(kvs.errCheckedAfter(commit.Body, "s.crdt.MakeRoot") && kvs.errCheckedAfter(commit.Body, "s.root.Store"))
+	roIf := kvs.ifWithCond(commit, "s.readonly")
+	f["commitGuardBeforeFlush"] = leanBool(roIf != nil && endsIn(roIf.Body, "return") && strings.Contains(kvs.text(roIf.Body), "ErrReadOnly") &&
+		roIf.Pos() < kvs.firstCallPos(commit, "s.crdt.MakeRoot") && kvs.firstCallPos(commit, "s.crdt.MakeRoot") != 0)
+	ct := kvs.text(commit.Body)
+	f["nameIsHashOfStoredBytes"] = leanBool(strings.Contains(ct, "hashBytes := blake2b.Sum256(rootBytes)") &&
+		strings.Contains(ct, "hash := big.NewInt(0).SetBytes(hashBytes[:12]).Text(62)") &&
+		strings.Contains(ct, "name := fmt.Sprintf(\"%s%06s_%s\", s.cfg.CustomRootPrefix, crTime, hash)") &&
+		strings.Contains(ct, "err = s.root.Store(ctx, name, rootBytes)"))
+
+	// ---- moveMergedRoots
+	mm := kvs.fn("DB.moveMergedRoots")
+	f["retireOrder"] = leanStrList(kvs.callOrder(mm, map[string]string{"s.merged.Store": "putMerged", "s.s3Client.DeleteObjectWithContext": "delCurrent"}))
+	skip := kvs.ifWithCond(mm, "newRoot == key")
+	f["retireSkipsSelf"] = leanBool(skip != nil && endsIn(skip.Body, "continue"))
+	f["retireStopsOnPutError"] = leanBool(kvs.errCheckedAfter(mm.Body, "s.merged.Store"))
+	delText := kvs.text(mm.Body)
+	if !strings.Contains(delText, "Key: aws.String(s.root.Prefix + key)") || !strings.Contains(delText, "s.merged.Store(ctx, key, mergedRoot)") {
+		f["retireOrder"] = leanStrList([]string{"unknown"})
+	}
+
+	// ---- Open
+	open := kvs.fn("Open")
+	ot := kvs.text(open.Body)
+	f["openLoadsFrom"] = leanStrList([]string{"unknown"})
+	f["historicLoadsFrom"] = leanStrList([]string{"unknown"})
+	f["historicCond"] = leanStr("unknown")
+	persistsOf := func(e ast.Expr) []string {
+		cl, ok := e.(*ast.CompositeLit)
+		if !ok {
+			return []string{"unknown"}
+		}
+		var out []string
+		for _, el := range cl.Elts {
+			out = append(out, persistLabel(kvs.text(el)))
+		}
+		return out
+	}
+	okPersistDefs := strings.Contains(ot, "rootPersist := cfg.Storage.fixPrefix().toPersist(S3, \"root/current/\")") &&
+		strings.Contains(ot, "mergedPersist := cfg.Storage.fixPrefix().toPersist(S3, \"root/merged/\")")
+	for _, st := range open.Body.List {
+		if as, ok := st.(*ast.AssignStmt); ok && len(as.Lhs) == 1 && kvs.text(as.Lhs[0]) == "persists" && as.Tok == token.DEFINE && okPersistDefs {
+			f["openLoadsFrom"] = leanStrList(persistsOf(as.Rhs[0]))
+		}
+		if ifs, ok := st.(*ast.IfStmt); ok && strings.Contains(kvs.text(ifs.Cond), "OnlyVersions") && ifs.Else != nil {
+			f["historicCond"] = leanStr(kvs.text(ifs.Cond))
+			hist, list := false, false
+			for _, b := range ifs.Body.List {
+				if as, ok := b.(*ast.AssignStmt); ok && kvs.text(as.Lhs[0]) == "persists" && okPersistDefs {
+					f["historicLoadsFrom"] = leanStrList(persistsOf(as.Rhs[0]))
+				}
+				if kvs.text(b) == "skipUnreadable = false" {
+					hist = true
+				}
+			}
+			if eb, ok := ifs.Else.(*ast.BlockStmt); ok {
+				for _, b := range eb.List {
+					if kvs.text(b) == "skipUnreadable = true" {
+						list = true
+					}
+				}
+			}
+			f["historicFailsOnMissing"] = leanBool(hist && list && strings.Contains(kvs.text(ifs.Body), "versionsToLoad = opts.OnlyVersions") &&
+				strings.Contains(kvs.text(ifs.Else), "versionsToLoad, err = listRoots(ctx, S3, rootPersist)"))
+		}
+	}
+	if _, ok := f["historicFailsOnMissing"]; !ok {
+		f["historicFailsOnMissing"] = "false"
+	}
+	rwIf := kvs.ifWithCond(open, "!opts.ReadOnly")
+	commitPos := kvs.firstCallPos(open, "s.Commit")
+	f["openCommitsOnlyIfRW"] = leanBool(rwIf != nil && commitPos > rwIf.Body.Pos() && commitPos < rwIf.Body.End() && len(kvs.callOrder(open, map[string]string{"s.Commit": "c"})) == 1)
+	first := stmtsOf(open.Body)
+	f["onlyVersionsRequiresRO"] = leanBool(len(first) > 0 && func() bool {
+		i, ok := first[0].(*ast.IfStmt)
+		return ok && kvs.text(i.Cond) == "!opts.ReadOnly && len(opts.OnlyVersions) > 0" && endsIn(i.Body, "return")
+	}())
+
+	// ---- mergeRoots
+	mr := kvs.fn("mergeRoots")
+	nilIf := kvs.ifWithCond(mr, "root == nil")
+	f["missingSkippedOnlyIfSkipUnreadable"] = leanBool(nilIf != nil && len(nilIf.Body.List) == 2 && func() bool {
+		in, ok := nilIf.Body.List[0].(*ast.IfStmt)
+		return ok && kvs.text(in.Cond) == "skipUnreadable" && endsIn(in.Body, "continue") && endsIn(nilIf.Body, "return")
+	}())
+	loadIf := kvs.ifContaining(mr, "NoSuchKey", "errors.As")
+	if loadIf == nil {
+		loadIf = kvs.ifContaining(mr, "isNoSuchKey(err)")
+	}
+	f["loadErrorSkipCond"] = leanStr("unknown")
+	if loadIf != nil {
+		f["loadErrorSkipCond"] = leanStr(kvs.text(loadIf.Cond))
+	}
+	// every other error path of the fold returns (F16): the two `!isNoSuchKey(err) || !skipUnreadable` guards
+	cnt := 0
+	ast.Inspect(mr, func(x ast.Node) bool {
+		if i, ok := x.(*ast.IfStmt); ok && kvs.text(i.Cond) == "!isNoSuchKey(err) || !skipUnreadable" && endsIn(i.Body, "return") {
+			cnt++
+		}
+		return true
+	})
+	f["mergeErrorsReturned"] = leanBool(cnt == 2)
+
+	// ---- read-only guards
+	var guards []string
+	for _, m := range []string{"DB.Set", "DB.Tombstone", "DeleteHistoricVersions"} {
+		fd := kvs.fn(m)
+		l := stmtsOf(fd.Body)
+		if len(l) > 0 {
+			if i, ok := l[0].(*ast.IfStmt); ok && kvs.text(i.Cond) == "s.readonly" && endsIn(i.Body, "return") && strings.Contains(kvs.text(i.Body), "ErrReadOnly") {
+				guards = append(guards, strings.TrimPrefix(m, "DB."))
+			}
+		}
+	}
+	if roIf != nil {
+		guards = append(guards, "Commit")
+	}
+	sort.Strings(guards)
+	f["roGuards"] = leanStrList(guards)
+	sync := vt.fn("VirtualTable.Sync")
+	sl := stmtsOf(sync.Body)
+	f["syncSkipsRO"] = leanBool(len(sl) > 0 && func() bool {
+		i, ok := sl[0].(*ast.IfStmt)
+		return ok && vt.text(i.Cond) == "c.common.S3Options.ReadOnly" && endsIn(i.Body, "return") && vt.firstCallPos(sync, "c.common.Commit") > i.End()
+	}())
+
+	// ---- vacuum
+	vac := vc.fn("Vacuum")
+	f["rowCutoff"] = leanStr("unknown")
+	if i := vc.ifContaining(vac, "row.Deleted"); i != nil {
+		f["rowCutoff"] = leanStr(vc.text(i.Cond))
+	}
+	f["vacuumOrder"] = leanStrList(vc.callOrder(vac, map[string]string{"db.RemoveTombstones": "removeTombstones", "db.Commit": "commit", "kv.DeleteHistoricVersions": "deleteHistoric"}))
+	dirtyIf := vc.ifWithCond(vac, "table.Tree.Root.IsDirty()")
+	f["vacuumRefusesDirty"] = leanBool(dirtyIf != nil && endsIn(dirtyIf.Body, "return") && dirtyIf.Pos() < vc.firstCallPos(vac, "table.Tree.Root.Clone"))
+	rfin := rf.fn("RefreshFunc.Final")
+	rdIf := rf.ifWithCond(rfin, "vt.Tree.Root.IsDirty()")
+	f["refreshRefusesDirty"] = leanBool(rdIf != nil && endsIn(rdIf.Body, "return") && rdIf.Pos() < rf.firstCallPos(rfin, "s3db.OpenKV"))
+	rt := kvs.fn("DB.RemoveTombstones")
+	f["tombCutoff"] = leanStr("unknown")
+	if i := kvs.ifContaining(rt, "ts"); i != nil {
+		f["tombCutoff"] = leanStr(kvs.text(i.Cond))
+	}
+	gh := kvs.fn("DB.getHistoricRootsAndNodes")
+	f["versionCutoff"] = leanStr("unknown")
+	if i := kvs.ifContaining(gh, "childRoot.Created"); i != nil {
+		f["versionCutoff"] = leanStr(kvs.text(i.Cond))
+	}
+	// the keep pass: unconditional walk of the current tree, and a loop over the root graph whose only skip is "is a candidate"
+	keepOK := false
+	for _, st := range gh.Body.List {
+		if i, ok := st.(*ast.IfStmt); ok && i.Init != nil && kvs.text(i.Init) == "err := keep(s.crdt.Mast)" && kvs.text(i.Cond) == "err != nil" {
+			keepOK = true
+		}
+	}
+	loopOK := false
+	ast.Inspect(gh, func(x ast.Node) bool {
+		if r, ok := x.(*ast.RangeStmt); ok && kvs.text(r.X) == "rootCacheByName" && r.Pos() > kvs.firstCallPos(gh, "keep") {
+			conts := 0
+			ast.Inspect(r.Body, func(y ast.Node) bool {
+				if b, ok := y.(*ast.BranchStmt); ok && b.Tok == token.CONTINUE {
+					conts++
+				}
+				return true
+			})
+			first, ok := r.Body.List[0].(*ast.IfStmt)
+			loopOK = conts == 1 && ok && kvs.text(first.Init) == "_, ok := candidateRoots[name]" && kvs.text(first.Cond) == "ok" &&
+				strings.Contains(kvs.text(r.Body), "keep(kept.Mast)")
+		}
+		return true
+	})
+	keepFn := strings.Contains(kvs.text(gh.Body), "if ls, ok := link.(string); ok && !removed { delete(candidateBlocks, ls) }")
+	f["vacuumKeepsReachable"] = leanBool(keepOK && loopOK && keepFn)
+	dh := kvs.fn("DeleteHistoricVersions")
+	var dord []string
+	for _, st := range dh.Body.List {
+		if r, ok := st.(*ast.RangeStmt); ok {
+			dord = append(dord, kvs.text(r.X))
+		}
+	}
+	f["deleteOrder"] = leanStrList(dord)
+
+	// ---- scan (C06)
+	fil := vc.fn("Cursor.Filter")
+	opsOf := func(frag string) []string {
+		i := vc.ifContaining(fil, frag)
+		if i == nil {
+			return []string{"unknown"}
+		}
+		var out []string
+		for _, p := range strings.Split(vc.text(i.Cond), "||") {
+			out = append(out, strings.TrimPrefix(strings.TrimSpace(p), "op == "))
+		}
+		return out
+	}
+	f["filterMaxOps"] = leanStrList(opsOf("op == OpLT"))
+	f["filterMinOps"] = leanStrList(opsOf("op == OpGT"))
+	ft := vc.text(fil.Body)
+	f["filterWindowAsExpected"] = leanBool(
+		strings.Contains(ft, "if c.max == nil || c.max != nil && c.operands[i].Order(c.max) < 0 { c.max = c.operands[i] c.ltMax = op == OpLT }") &&
+			strings.Contains(ft, "if c.min == nil || c.min != nil && c.operands[i].Order(c.min) > 0 { c.min = c.operands[i] c.gtMin = op == OpGT }") &&
+			strings.Contains(ft, "if !c.desc { if c.min != nil { err = c.cursor.Ceil(ctx, c.min) } else { err = c.cursor.Min(ctx) } }"))
+	nullIf := vc.ifWithCond(fil, "val[i] == nil")
+	f["filterNullOperandEmpty"] = leanBool(nullIf != nil && strings.Contains(vc.text(nullIf.Body), "c.eof = true") && endsIn(nullIf.Body, "return") && nullIf.Pos() < vc.firstCallPos(fil, "NewKey"))
+	f["descSeekFallsBackToMax"] = leanBool(strings.Contains(ft, "err = c.cursor.Ceil(ctx, c.max) if err == nil { if _, _, ok := c.cursor.Get(); !ok {") && strings.Contains(ft, "err = c.cursor.Max(ctx)"))
+	nx := vc.fn("Cursor.Next")
+	nt := vc.text(nx.Body)
+	f["nextAsExpected"] = leanBool(
+		strings.Contains(nt, "if !c.desc { if c.max != nil { cmp := k.(*Key).Order(c.max) if c.ltMax && cmp >= 0 || cmp > 0 {") &&
+			strings.Contains(nt, "} else { if c.min != nil { cmp := k.(*Key).Order(c.min) if c.gtMin && cmp <= 0 || cmp < 0 {") &&
+			strings.Contains(nt, "if c.min != nil && c.gtMin && k.(*Key).Order(c.min) == 0 {") &&
+			strings.Contains(nt, "if c.max != nil && c.ltMax && k.(*Key).Order(c.max) == 0 {") &&
+			strings.Contains(nt, "if v.Value == nil || v.Value.(*v1proto.Row) == nil || v.Value.(*v1proto.Row).Deleted {"))
+	bi := vt.fn("VirtualTable.BestIndex")
+	f["bestIndexNeverOmits"] = leanBool(!strings.Contains(strings.ReplaceAll(vt.text(bi.Body), "//Omit", ""), "Omit"))
+
+	// ---- NoChange (C02)
+	col := vt.fn("Cursor.Column")
+	ncIf := vt.ifWithCond(col, "i != c.keyCol && ctx.NoChange()")
+	f["columnHonoursNoChange"] = leanBool(ncIf != nil && endsIn(ncIf.Body, "return") && ncIf.Pos() < vt.firstCallPos(col, "c.common.Column"))
+	vtg := vt.fn("valuesToGo")
+	skipIf := vt.ifWithCond(vtg, "values[i].NoChange()")
+	f["valuesSkipNoChange"] = leanBool(skipIf != nil && endsIn(skipIf.Body, "continue"))
+
+	// ---- codec (C16, C08)
+	mp := vc.fn("marshalProto")
+	up := vc.fn("unmarshalProto")
+	fieldsOf := func(fd *ast.FuncDecl, typ string) []string {
+		var out []string
+		ast.Inspect(fd, func(x ast.Node) bool {
+			if cl, ok := x.(*ast.CompositeLit); ok && strings.HasSuffix(vc.text(cl.Type), typ) {
+				for _, el := range cl.Elts {
+					if kvp, ok := el.(*ast.KeyValueExpr); ok {
+						out = append(out, vc.text(kvp.Key)+"<-"+lastSel(vc.text(kvp.Value)))
+					}
+				}
+			}
+			return true
+		})
+		sort.Strings(out)
+		return out
+	}
+	f["marshalFields"] = leanStrList(fieldsOf(mp, "CRDTValue"))
+	f["unmarshalFields"] = leanStrList(fieldsOf(up, "crdt.Value"))
+	mt := vc.text(mp.Body)
+	f["marshalNilLinkAs"] = leanStr("unknown")
+	if strings.Contains(mt, "for i := range in.Link { if in.Link[i] == nil { continue } out.Link[i] = in.Link[i].(string) }") {
+		f["marshalNilLinkAs"] = leanStr("emptyString")
+	}
+	ut := vc.text(up.Body)
+	f["unmarshalEmptyLinkAs"] = leanStr("unknown")
+	switch {
+	case strings.Contains(ut, "for i := range in.Link { if in.Link[i] == \"\" { continue } out.Link[i] = in.Link[i] }"):
+		f["unmarshalEmptyLinkAs"] = leanStr("nil")
+	case strings.Contains(ut, "for i := range in.Link { out.Link[i] = in.Link[i] }"):
+		f["unmarshalEmptyLinkAs"] = leanStr("emptyString")
+	}
+	f["codecKeysAndSizes"] = leanBool(strings.Contains(mt, "out.Key[i] = in.Key[i].(*Key).SQLiteValue") && strings.Contains(ut, "out.Key[i] = &Key{in.Key[i]}") &&
+		strings.Contains(ut, "Key: make([]interface{}, len(in.Key))") && strings.Contains(ut, "Link: make([]interface{}, len(in.Link))") &&
+		strings.Contains(mt, "Link: make([]string, len(in.Link))"))
+
+	// ---- New / Connect (C20)
+	nw := vc.fn("New")
+	openPos := vc.firstCallPos(nw, "OpenKV")
+	lockPos := vc.firstCallPos(nw, "tableLock.Lock")
+	loopEnd := token.Pos(0)
+	for _, st := range nw.Body.List {
+		if r, ok := st.(*ast.RangeStmt); ok && vc.text(r.X) == "args" {
+			loopEnd = r.End()
+		}
+	}
+	f["argsBeforeOpen"] = leanBool(loopEnd != 0 && openPos > loopEnd)
+	f["registerAfterOpen"] = leanBool(openPos != 0 && lockPos > openPos && strings.Contains(vc.text(nw.Body), "tables[table.Name] = table"))
+	cn := vt.fn("Module.Connect")
+	decl := vt.ifWithCond(cn, "err != nil")
+	declOK := false
+	ast.Inspect(cn, func(x ast.Node) bool {
+		if i, ok := x.(*ast.IfStmt); ok && vt.text(i.Cond) == "err != nil" && strings.Contains(vt.text(i.Body), "table.Disconnect()") && endsIn(i.Body, "return") {
+			declOK = true
+		}
+		return true
+	})
+	_ = decl
+	f["declareFailureUnregisters"] = leanBool(declOK)
+	f["unknownOptionRejected"] = leanBool(strings.Contains(vc.text(nw.Body), "default: return nil, fmt.Errorf(\"unknown option: %s\", s[0])") &&
+		strings.Contains(vc.text(nw.Body), "if _, ok := seen[s[0]]; ok { return nil, fmt.Errorf(\"duplicated: %s\", s[0]) }"))
+
+	// ---- shared globals (C19)
+	var globals []string
+	locked := true
+	for _, rel := range []string{"vtable_common.go", "open.go", "key.go", "kv/kv.go", "kv/crypto.go", "kv/encode_gob.go", "kv/internal/crdt/crdt.go", "kv/crdt/value.go", "sqlite/vtable.go", "sqlite/s3db_conn.go", "sqlite/s3db_changes.go", "sqlite/s3db_refresh.go", "sqlite/s3db_version.go", "sqlite/vacuum.go", "writetime/context.go"} {
+		s := load(rel)
+		for _, d := range s.file.Decls {
+			gd, ok := d.(*ast.GenDecl)
+			if !ok || gd.Tok != token.VAR {
+				continue
+			}
+			for _, sp := range gd.Specs {
+				vs := sp.(*ast.ValueSpec)
+				for _, n := range vs.Names {
+					if n.Name == "_" {
+						continue
+					}
+					typ := s.text(vs.Type)
+					val := ""
+					if len(vs.Values) > 0 {
+						val = s.text(vs.Values[0])
+					}
+					// immutable after init: errors, regexps, function values, sync.Mutex itself
+					if strings.HasPrefix(val, "errors.New") || strings.HasPrefix(val, "regexp.MustCompile") || strings.HasPrefix(val, "mast.DefaultLayer") || typ == "sync.Mutex" || strings.HasPrefix(val, "MergeFunc(") || strings.HasPrefix(val, "parse.RE(") {
+						continue
+					}
+					globals = append(globals, rel+":"+n.Name)
+				}
+			}
+		}
+	}
+	sort.Strings(globals)
+	f["sharedGlobals"] = leanStrList(globals)
+	// every use of `tables` lies between tableLock.Lock() and the function's end (defer Unlock), every use of inMemoryS3* between inMemoryS3Lock.Lock() ...
+	checkLocked := func(s *src, varName, lockCall string) {
+		for name, fd := range s.funcs {
+			if strings.Contains(name, ".") && s.funcs[strings.SplitN(name, ".", 2)[1]] == fd {
+				// listed twice (qualified and bare): handle once
+			}
+			lp := s.firstCallPos(fd, lockCall)
+			ast.Inspect(fd, func(x ast.Node) bool {
+				if id, ok := x.(*ast.Ident); ok && id.Name == varName && id.Obj != nil && id.Obj.Kind == ast.Var {
+					if fd.Name.Name == "init" {
+						return true
+					}
+					if lp == 0 || id.Pos() < lp {
+						locked = false
+					}
+				}
+				return true
+			})
+		}
+	}
+	checkLocked(vc, "tables", "tableLock.Lock")
+	op := load("open.go")
+	checkLocked(op, "inMemoryS3", "inMemoryS3Lock.Lock")
+	checkLocked(op, "inMemoryBucket", "inMemoryS3Lock.Lock")
+	f["sharedGlobalsLocked"] = leanBool(locked)
+
+	// ---- emit
+	keys := make([]string, 0, len(f))
+	for k := range f {
+		keys = append(keys, k)
+	}
+	sort.Strings(keys)
+	var b strings.Builder
+	b.WriteString("-- GENERATED by go2lean (fact mode) from /repo — do not edit; regenerated on every run\n")
+	b.WriteString("import S3db.Model.Facts\nnamespace S3db.Gen\n\ndef facts : S3db.Facts where\n")
+	for _, k := range keys {
+		fmt.Fprintf(&b, "  %s := %s\n", k, f[k])
+	}
+	b.WriteString("\nend S3db.Gen\n")
+	writeOut("Facts.lean", b.String())
+}
+
+func lastSel(s string) string {
+	if i := strings.LastIndex(s, "."); i >= 0 {
+		return s[i+1:]
+	}
+	return s
+}
